@@ -9,7 +9,13 @@ for p in sorted(glob.glob(root + "/claims/C*.json")):
     ev = root + "/evidence/" + d["property"] + ".json"
     if not os.path.exists(ev):
         continue
-    cc = json.load(open(ev))["coverage"].get("claim_counts")
+    evd = json.load(open(ev))
+    if evd.get("tier") != "quick":
+        # the thorough tier enumerates more: its counts would set minima the quick check cannot reach
+        # (it happened once: an alarm on the unchanged tree, caught before it was committed for good)
+        print("skipped", os.path.basename(p), "(evidence is not from the quick tier)")
+        continue
+    cc = evd["coverage"].get("claim_counts")
     if not cc:
         continue
     got = {c["match"]: c["matched"] for c in cc}
